@@ -17,6 +17,7 @@ use calamine::verif_hooks::formats::{
     builtin_format_by_code, builtin_format_by_id, detect_custom_number_format, format_excel_f64, format_excel_i64, CellFormat,
 };
 use calamine::Data;
+use calamine::Reader as _;
 use std::sync::atomic::{AtomicUsize, Ordering};
 use verif_harness::{driver::Driver, fnv64, guarded, hex, report::Report, rng::Rng, unhex, Args};
 
@@ -1123,7 +1124,9 @@ impl StyleCase {
         format!("styles {} {} {}", self.kind, defs, self.xfs.iter().map(|x| x.to_string()).collect::<Vec<_>>().join(","))
     }
     /// the workbook bytes and, per XF index, the expected numeric value of each cell written in row = XF index
-    fn build(&self) -> (Vec<u8>, Vec<Vec<f64>>) {
+    /// … and the driver request that makes the Lean decoder (`Model/FormatsDecode.lean`) read exactly the styles part /
+    /// stream that was written
+    fn build(&self) -> (Vec<u8>, Vec<Vec<f64>>, String) {
         use verif_harness::{xlsbw, xlsw, xlsxw};
         let mut rng = Rng::new(self.seed);
         let mut expect: Vec<Vec<f64>> = vec![];
@@ -1148,7 +1151,8 @@ impl StyleCase {
                 book.sheets.push(sh);
                 let mut layout = xlsxw::Layout::random(&mut rng);
                 layout.pct_noise = 0;
-                (book.build(&layout).bytes, expect)
+                let decode = format!("xlsxstyles {}", xlsxw::ev_wire(&xlsxw::render_styles(&book, &layout)));
+                (book.build(&layout).bytes, expect, decode)
             }
             "xlsb" => {
                 let mut book = xlsbw::XlsbBook::new();
@@ -1173,7 +1177,8 @@ impl StyleCase {
                     expect.push(vec![v0, f64::from_bits(bits), v2, if d100 { n3 as f64 / 100.0 } else { n3 as f64 }]);
                 }
                 book.sheets.push(sh);
-                (book.to_bytes(), expect)
+                let decode = format!("xlsbstyles {}", hex(&book.styles_part(&self.xfs)));
+                (book.to_bytes(), expect, decode)
             }
             _ => {
                 let mut book = xlsw::XlsBook::new();
@@ -1203,19 +1208,39 @@ impl StyleCase {
                     expect.push(vec![v0, v1t, v2, n3 as f64, n4 as f64 / 100.0, n3 as f64]);
                 }
                 book.sheets.push(sh);
-                (book.to_bytes(&mut rng), expect)
+                // `XlsBook::to_bytes`, step by step, so that the stream it wraps is at hand
+                let wb = book.workbook_stream(&mut rng);
+                let mut opts = verif_harness::cfbw::CfbOpts::random(&mut rng);
+                if wb.len() >= 4096 || wb.is_empty() {
+                    opts.sector_size = 512;
+                }
+                let decode = format!("xlsstream {}", hex(&wb));
+                (verif_harness::cfbw::write_cfb(&[(book.stream_name.clone(), wb)], &opts, &mut rng), expect, decode)
             }
         }
     }
     /// open the workbook with calamine and return the cells of sheet "S" as (row, col) → Data
-    fn read(&self, bytes: Vec<u8>) -> Result<calamine::Range<Data>, String> {
+    fn read(&self, bytes: Vec<u8>) -> Result<(calamine::Range<Data>, String), String> {
+        use calamine::verif_hooks as vh;
         use calamine::{Reader, Xls, Xlsb, Xlsx};
         let cur = std::io::Cursor::new(bytes);
-        let r = guarded(|| -> Result<calamine::Range<Data>, String> {
+        let r = guarded(|| -> Result<(calamine::Range<Data>, String), String> {
             match self.kind {
-                "xlsx" => Xlsx::new(cur).map_err(|e| format!("open: {e}"))?.worksheet_range("S").map_err(|e| format!("range: {e}")),
-                "xlsb" => Xlsb::new(cur).map_err(|e| format!("open: {e}"))?.worksheet_range("S").map_err(|e| format!("range: {e}")),
-                _ => Xls::new(cur).map_err(|e| format!("open: {e}"))?.worksheet_range("S").map_err(|e| format!("range: {e}")),
+                "xlsx" => {
+                    let mut wb = Xlsx::new(cur).map_err(|e| format!("open: {e}"))?;
+                    let f = class_letters(&vh::xlsx::c10_formats(&wb));
+                    Ok((wb.worksheet_range("S").map_err(|e| format!("range: {e}"))?, f))
+                }
+                "xlsb" => {
+                    let mut wb = Xlsb::new(cur).map_err(|e| format!("open: {e}"))?;
+                    let f = class_letters(&vh::xlsb::c03_formats(&wb));
+                    Ok((wb.worksheet_range("S").map_err(|e| format!("range: {e}"))?, f))
+                }
+                _ => {
+                    let mut wb = Xls::new(cur).map_err(|e| format!("open: {e}"))?;
+                    let f = class_letters(&vh::xls::c10_formats(&wb));
+                    Ok((wb.worksheet_range("S").map_err(|e| format!("range: {e}"))?, f))
+                }
             }
         });
         match r {
@@ -1223,6 +1248,14 @@ impl StyleCase {
             Err(p) => Err(format!("panic: {p}")),
         }
     }
+}
+
+/// the hooks' class codes as the letters the driver uses
+fn class_letters(v: &[u8]) -> String {
+    if v.is_empty() {
+        return "-".into();
+    }
+    v.iter().map(|c| match c { 0 => 'O', 1 => 'D', 2 => 'T', _ => '?' }).collect()
 }
 
 /// canonical text of a numeric cell as read / as expected
@@ -1260,11 +1293,11 @@ fn cell_letter(c: &str) -> char {
 fn check_file(case: &StyleCase, drv: &mut Driver, out: &mut Out, shrink: bool) -> bool {
     let input = case.wire();
     let model = drv.ask(&case.model_request());
-    let (bytes, values) = case.build();
+    let (bytes, values, decode_req) = case.build();
     if let Ok(path) = std::env::var("VERIF_DUMP") {
         let _ = std::fs::write(path, &bytes);
     }
-    let range = match case.read(bytes) {
+    let (range, impl_table) = match case.read(bytes) {
         Ok(r) => r,
         Err(e) => {
             if model == "panic" && e.starts_with("panic") {
@@ -1274,6 +1307,15 @@ fn check_file(case: &StyleCase, drv: &mut Driver, out: &mut Out, shrink: bool) -
             return false;
         }
     };
+    // the style table itself: what the reader built (hook) vs the Lean decoder on the part that was written vs the
+    // Lean builder on the logical lists
+    let decoded = drv.ask(&decode_req);
+    if impl_table != decoded {
+        out.fail("impl_vs_model", &format!("file:{}:styles-decode", case.kind), &input, &impl_table, &decoded, &model);
+    }
+    if decoded != model {
+        out.fail("model_vs_spec", "theorem:styles_roundtrip", &input, &impl_table, &decoded, &model);
+    }
     let mut ok = true;
     for (i, id) in case.xfs.iter().enumerate() {
         let exp = case.expected(*id);
@@ -1374,6 +1416,406 @@ fn check_raw_formatcode(raw: &str, drv: &mut Driver, out: &mut Out) {
     }
     out.cases.push((input, true));
     out.count("corpus");
+}
+
+// ------------------------------------------------------------------------------------------------
+// the decoders of the style tables on unusual and malformed parts (impl vs Lean decoder, `Model/FormatsDecode.lean`)
+// ------------------------------------------------------------------------------------------------
+
+fn ok_or_err(s: &str) -> String {
+    if s.starts_with("err") || s.starts_with("open") || s.starts_with("panic") { if s.starts_with("panic") { "panic".into() } else { "err".into() } } else { s.to_string() }
+}
+
+/// xls unit level: `parse_xf` / `parse_format` on arbitrary payloads
+fn check_xls_style_payloads(rng: &mut Rng, drv: &mut Driver, out: &mut Out) {
+    use calamine::verif_hooks::xls as vx;
+    // XF
+    let n = *rng.pick(&[0usize, 1, 2, 3, 4, 5, 20]);
+    let p = rng.bytes(n);
+    let imp = match guarded(|| vx::c10_parse_xf(&p)) {
+        Ok(Ok(v)) => format!("ok:{v}"),
+        Ok(Err(_)) => "err".into(),
+        Err(_) => "panic".into(),
+    };
+    let input = format!("xlsxf {}", hex(&p));
+    let m = drv.ask(&input);
+    if imp != m {
+        out.fail("impl_vs_model", "xls:parse_xf", &input, &imp, &m, "");
+    }
+    // FORMAT: a well-laid-out record with its knobs turned, or noise
+    let p: Vec<u8> = if rng.chance(1, 4) {
+        let n = rng.below(12) as usize;
+        rng.bytes(n)
+    } else {
+        let text: Vec<u16> = match rng.below(4) {
+            0 => gen_fmt(rng).render().encode_utf16().collect(),
+            1 => "yyyy-mm-dd".encode_utf16().collect(),
+            2 => (0..rng.below(6)).map(|_| *rng.pick(&[0x64u16, 0x5B, 0x68, 0x5D, 0xD800, 0xDC00, 0xFEFF, 0x22, 0x5E74])).collect(),
+            _ => "0.00".encode_utf16().collect(),
+        };
+        let wide = rng.chance(1, 2) || text.iter().any(|u| *u > 255);
+        let cch = match rng.below(5) {
+            0 => text.len().saturating_sub(rng.range(1, 3) as usize),
+            1 => text.len() + rng.range(1, 300) as usize,
+            _ => text.len(),
+        };
+        let mut p = (*rng.pick(&[164u16, 14, 0, 65535])).to_le_bytes().to_vec();
+        p.extend_from_slice(&(cch as u16).to_le_bytes());
+        p.push(if wide { 1 } else { 0 } | if rng.chance(1, 5) { *rng.pick(&[0x04u8, 0x08, 0xFE]) } else { 0 });
+        for u in &text {
+            if wide {
+                p.extend_from_slice(&u.to_le_bytes());
+            } else {
+                p.push(*u as u8);
+            }
+        }
+        if wide && rng.chance(1, 6) {
+            p.pop(); // an odd number of bytes
+        }
+        if rng.chance(1, 8) {
+            p.truncate(rng.below(p.len() as u64 + 1) as usize);
+        }
+        p
+    };
+    let imp = match guarded(|| vx::c10_parse_format(&p, 1200)) {
+        Ok(Ok((i, c))) => format!("ok:{i}:{}", class_letters(&[c])),
+        Ok(Err(_)) => "err".into(),
+        Err(_) => "panic".into(),
+    };
+    let input = format!("xlsfmt {}", hex(&p));
+    let m = drv.ask(&input);
+    if imp != m {
+        out.fail("impl_vs_model", "xls:parse_format", &input, &imp, &m, "");
+    }
+    out.case(input, true);
+}
+
+/// an xlsb workbook whose xl/styles.bin is the given record list (framed at random): the reader's table or `err`
+fn check_xlsb_styles_part(records: &[(u16, Vec<u8>)], cut: Option<usize>, rng: &mut Rng, drv: &mut Driver, out: &mut Out) {
+    use calamine::verif_hooks::xlsb as vb;
+    use verif_harness::xlsbw;
+    let mut part = vec![];
+    for (id, p) in records {
+        let f = xlsbw::Frame { id_w: rng.below(3) as u8, len_w: rng.below(5) as u8 };
+        xlsbw::put_record(&mut part, *id, p, f);
+    }
+    if let Some(c) = cut {
+        part.truncate(c.min(part.len()));
+    }
+    let mut book = xlsbw::XlsbBook::new();
+    book.sheets.push(xlsbw::XlsbSheet::new("S"));
+    let mut parts = book.parts();
+    for (n, b) in parts.iter_mut() {
+        if n == "xl/styles.bin" {
+            *b = part.clone();
+        }
+    }
+    let bytes = xlsbw::zip_parts(&parts, true);
+    let imp: String = match guarded(|| calamine::Xlsb::new(std::io::Cursor::new(bytes)).map(|wb| class_letters(&vb::c03_formats(&wb)))) {
+        Ok(Ok(t)) => t,
+        Ok(Err(_)) => "err".into(),
+        Err(_) => "panic".into(),
+    };
+    let input = format!("xlsbstyles {}", hex(&part));
+    let m = ok_or_err(&drv.ask(&input));
+    if imp != m {
+        out.fail(if imp == "panic" { "impl_vs_spec" } else { "impl_vs_model" }, "file:xlsb:styles-part", &input, &imp, &m, if imp == "panic" { "no panic" } else { "" });
+    }
+    out.count(&format!("stylespart_xlsb_{}", if imp == "err" { "err" } else { "ok" }));
+    out.case(input, true);
+}
+
+fn gen_xlsb_styles_records(rng: &mut Rng) -> (Vec<(u16, Vec<u8>)>, Option<usize>) {
+    use verif_harness::xlsbw;
+    let mut recs: Vec<(u16, Vec<u8>)> = vec![(0x0116, vec![])];
+    let unknown = |rng: &mut Rng| -> (u16, Vec<u8>) {
+        let n = rng.below(20) as usize;
+        // payload bytes that look like the interesting record ids must stay inert
+        let mut p = rng.bytes(n);
+        if rng.chance(1, 2) && p.len() >= 2 {
+            p[0] = 0xE7;
+            p[1] = 0x04;
+        }
+        (*rng.pick(&[0x0263u16, 0x002B, 0x025B, 0x0265, 0x0401, 0x0013]), p)
+    };
+    let fmt_payload = |rng: &mut Rng| -> Vec<u8> {
+        let s = match rng.below(4) {
+            0 => "yyyy\\-mm".to_string(),
+            1 => "[h]:mm".to_string(),
+            2 => "0.0\" d\"".to_string(),
+            _ => gen_fmt(rng).render(),
+        };
+        let mut p = (*rng.pick(&[164u16, 165, 166, 14, 1])).to_le_bytes().to_vec();
+        p.extend_from_slice(&xlsbw::wide_str(&s));
+        match rng.below(12) {
+            0 => p.truncate(1),
+            1 => p.truncate(rng.range(2, 7) as usize),
+            2 => {
+                p.pop();
+            }
+            _ => {}
+        }
+        p
+    };
+    let xf_payload = |rng: &mut Rng, id: u16| -> Vec<u8> {
+        let mut p = 0xFFFFu16.to_le_bytes().to_vec();
+        p.extend_from_slice(&id.to_le_bytes());
+        p.extend_from_slice(&[0; 12]);
+        if rng.chance(1, 14) {
+            p.truncate(rng.below(4) as usize);
+        }
+        p
+    };
+    while rng.chance(1, 2) {
+        recs.push(unknown(rng));
+    }
+    for _ in 0..rng.below(3) {
+        // a BrtBeginFmts block whose count may disagree with its content
+        let n = rng.below(4) as usize;
+        let declared = match rng.below(6) {
+            0 => n + 1,
+            1 => n.saturating_sub(1),
+            _ => n,
+        };
+        recs.push((0x0267, if rng.chance(1, 15) { vec![1, 0] } else { (declared as u32).to_le_bytes().to_vec() }));
+        for _ in 0..n {
+            if rng.chance(1, 4) {
+                recs.push(unknown(rng));
+            }
+            let p = fmt_payload(rng);
+            recs.push((0x002C, p));
+        }
+        recs.push((0x0268, vec![]));
+        while rng.chance(1, 3) {
+            recs.push(unknown(rng));
+        }
+    }
+    if rng.chance(1, 2) {
+        // cellStyleXfs: BrtXF records that are NOT cell formats
+        recs.push((0x0272, 2u32.to_le_bytes().to_vec()));
+        recs.push((0x002F, xf_payload(rng, 14)));
+        recs.push((0x002F, xf_payload(rng, 46)));
+        recs.push((0x0273, vec![]));
+    }
+    if !rng.chance(1, 12) {
+        let n = rng.below(6) as usize;
+        let declared = match rng.below(8) {
+            0 => n + 1,
+            1 => n.saturating_sub(1),
+            _ => n,
+        };
+        recs.push((0x0269, if rng.chance(1, 15) { vec![] } else { (declared as u32).to_le_bytes().to_vec() }));
+        for _ in 0..n {
+            if rng.chance(1, 5) {
+                recs.push(unknown(rng));
+            }
+            let id = *rng.pick(&[0u16, 14, 22, 46, 164, 165, 166, 1, 300]);
+            let p = xf_payload(rng, id);
+            recs.push((0x002F, p));
+        }
+        recs.push((0x026A, vec![]));
+    }
+    if rng.chance(1, 4) {
+        recs.push((0x0267, 1u32.to_le_bytes().to_vec())); // a format table after the cell XFs comes too late
+        recs.push((0x002C, fmt_payload(rng)));
+    }
+    recs.push((0x0117, vec![]));
+    let cut = if rng.chance(1, 8) { Some(rng.below(200) as usize) } else { None };
+    (recs, cut)
+}
+
+/// an xlsx workbook whose xl/styles.xml is the given event list
+fn check_xlsx_styles_part(evs: &[verif_harness::xlsxw::Ev], rng: &mut Rng, drv: &mut Driver, out: &mut Out) {
+    use calamine::verif_hooks::xlsx as vx;
+    use verif_harness::xlsxw;
+    let text = format!("<?xml version=\"1.0\" encoding=\"UTF-8\" standalone=\"yes\"?>\n{}", xlsxw::serialize(evs, || rng.chance(1, 2)));
+    let mut book = xlsxw::XlsxBook::new();
+    book.sheets.push(xlsxw::XlsxSheet::new("S"));
+    let built = book.build(&xlsxw::Layout::plain());
+    let mut parts = built.parts.clone();
+    for (n, b) in parts.iter_mut() {
+        if n.to_ascii_lowercase().ends_with("styles.xml") {
+            *b = text.clone().into_bytes();
+        }
+    }
+    let bytes = xlsxw::zip_parts(&parts, xlsxw::Compression::Deflated, &mut Rng::new(3));
+    let imp: String = match guarded(|| calamine::Xlsx::new(std::io::Cursor::new(bytes)).map(|wb| class_letters(&vx::c10_formats(&wb)))) {
+        Ok(Ok(t)) => t,
+        Ok(Err(_)) => "err".into(),
+        Err(_) => "panic".into(),
+    };
+    let input = format!("xlsxstyles {}", xlsxw::ev_wire(evs));
+    let m = ok_or_err(&drv.ask(&input));
+    if imp != m {
+        out.fail(if imp == "panic" { "impl_vs_spec" } else { "impl_vs_model" }, "file:xlsx:styles-part", &format!("{input}   [text: {text}]"), &imp, &m, if imp == "panic" { "no panic" } else { "" });
+    }
+    out.count(&format!("stylespart_xlsx_{}", if imp == "err" { "err" } else { "ok" }));
+    out.case(input, true);
+}
+
+fn gen_xlsx_styles_events(rng: &mut Rng) -> Vec<verif_harness::xlsxw::Ev> {
+    use verif_harness::xlsxw::{end, start, Ev};
+    let pfx = if rng.chance(1, 3) { "x:" } else { "" };
+    let q = |n: &str| format!("{pfx}{n}");
+    let mut blocks: Vec<Vec<Ev>> = vec![];
+    let code = |rng: &mut Rng| -> String {
+        match rng.below(5) {
+            0 => "yyyy\\-mm".to_string(),
+            1 => "[h]:mm".to_string(),
+            2 => "0.0\" d\"".to_string(),
+            3 => String::new(),
+            _ => gen_fmt(rng).render(),
+        }
+    };
+    let numfmt = |rng: &mut Rng, c: String| -> Vec<Ev> {
+        let id = rng.pick(&["164", "165", "166", "14", "1", "0164", ""]).to_string();
+        let mut attrs: Vec<(String, String)> = vec![];
+        if !rng.chance(1, 12) {
+            attrs.push(("numFmtId".into(), id));
+        }
+        if !rng.chance(1, 12) {
+            attrs.push(("formatCode".into(), c));
+        }
+        if rng.chance(1, 2) {
+            attrs.reverse();
+        }
+        if rng.chance(1, 8) {
+            attrs.push(("x:numFmtId".into(), "14".into())); // a prefixed attribute is another attribute
+        }
+        vec![Ev::Start(q("numFmt"), attrs), end(&q("numFmt"))]
+    };
+    let xf = |rng: &mut Rng| -> Vec<Ev> {
+        let mut attrs: Vec<(String, String)> = vec![("fontId".into(), "0".into())];
+        if !rng.chance(1, 6) {
+            attrs.push(("numFmtId".into(), rng.pick(&["0", "14", "22", "46", "164", "165", "166", "1", "300", "0164"]).to_string()));
+        }
+        if rng.chance(1, 2) {
+            attrs.reverse();
+        }
+        let mut v = vec![Ev::Start(q("xf"), attrs)];
+        if rng.chance(1, 3) {
+            v.push(start(&q("alignment"), &[("horizontal", "center")]));
+            v.push(end(&q("alignment")));
+        }
+        v.push(end(&q("xf")));
+        v
+    };
+    for _ in 0..rng.below(3) {
+        let mut b = vec![start(&q("numFmts"), &[("count", "3")])];
+        for _ in 0..rng.below(4) {
+            let c = code(rng);
+            b.extend(numfmt(rng, c));
+            if rng.chance(1, 5) {
+                b.push(Ev::Text("\n  ".into()));
+            }
+        }
+        b.push(end(&q("numFmts")));
+        blocks.push(b);
+    }
+    if rng.chance(1, 2) {
+        let mut b = vec![start(&q("cellStyleXfs"), &[])];
+        b.push(start(&q("xf"), &[("numFmtId", "14")]));
+        b.push(end(&q("xf")));
+        b.push(end(&q("cellStyleXfs")));
+        blocks.push(b);
+    }
+    for _ in 0..(if rng.chance(1, 10) { 2 } else { 1 }) {
+        let mut b = vec![start(&q("cellXfs"), &[])];
+        for _ in 0..rng.below(6) {
+            b.extend(xf(rng));
+        }
+        if rng.chance(1, 6) {
+            let c = code(rng);
+            b.extend(numfmt(rng, c)); // a numFmt inside cellXfs defines nothing
+        }
+        b.push(end(&q("cellXfs")));
+        blocks.push(b);
+    }
+    if rng.chance(1, 2) {
+        let mut b = vec![start(&q("dxfs"), &[]), start(&q("dxf"), &[])];
+        b.extend(numfmt(rng, "yyyy".into()));
+        b.push(end(&q("dxf")));
+        b.push(end(&q("dxfs")));
+        blocks.push(b);
+    }
+    if rng.chance(1, 6) {
+        blocks.push(xf(rng)); // an <xf> directly under styleSheet
+    }
+    if rng.chance(1, 3) {
+        rng.shuffle(&mut blocks); // e.g. the format table after the cell XFs (comes too late)
+    }
+    let mut evs = vec![Ev::Start(q("styleSheet"), vec![(if pfx.is_empty() { "xmlns".to_string() } else { "xmlns:x".to_string() }, "http://schemas.openxmlformats.org/spreadsheetml/2006/main".to_string())])];
+    for b in blocks {
+        evs.extend(b);
+    }
+    evs.push(end(&q("styleSheet")));
+    if rng.chance(1, 8) {
+        let k = rng.below(evs.len() as u64) as usize;
+        evs.truncate(k.max(1)); // the part ends early
+    }
+    evs
+}
+
+/// an xls workbook with hand-made FORMAT / XF records in front of the writer's own
+fn check_xls_styles_stream(rng: &mut Rng, drv: &mut Driver, out: &mut Out) {
+    use calamine::verif_hooks::xls as vx;
+    use verif_harness::{cfbw, xlsw};
+    let mut book = xlsw::XlsBook::new();
+    book.formats = vec![(164, "yyyy".into()), (165, "[h]".into())];
+    book.xfs = vec![0, 164, 165, 14];
+    for _ in 0..rng.below(5) {
+        if rng.chance(1, 2) {
+            let s: String = match rng.below(3) {
+                0 => "mm:ss".into(),
+                1 => "0.0".into(),
+                _ => gen_fmt(rng).render(),
+            };
+            let u: Vec<u16> = s.encode_utf16().collect();
+            let wide = u.iter().any(|x| *x > 255) || rng.chance(1, 2);
+            let cch = if rng.chance(1, 5) { u.len() + 7 } else if rng.chance(1, 5) { u.len() / 2 } else { u.len() };
+            let mut p = (*rng.pick(&[166u16, 164, 14, 20])).to_le_bytes().to_vec();
+            p.extend_from_slice(&(cch as u16).to_le_bytes());
+            p.push(wide as u8);
+            for x in &u {
+                if wide {
+                    p.extend_from_slice(&x.to_le_bytes());
+                } else {
+                    p.push(*x as u8);
+                }
+            }
+            if rng.chance(1, 12) {
+                p.truncate(rng.below(5) as usize);
+            }
+            book.globals_head.push((xlsw::FORMAT, p));
+        } else {
+            let mut p = vec![0u8, 0];
+            p.extend_from_slice(&(*rng.pick(&[166u16, 164, 14, 20, 0])).to_le_bytes());
+            p.extend_from_slice(&[0; 16]);
+            if rng.chance(1, 12) {
+                p.truncate(rng.below(4) as usize);
+            }
+            book.globals_head.push((xlsw::XF, p));
+        }
+        if rng.chance(1, 3) {
+            let n = rng.below(8) as usize;
+            book.globals_head.push((*rng.pick(&[0x0031u16, 0x0293, 0x0892]), rng.bytes(n)));
+        }
+    }
+    book.sheets.push(xlsw::XlsSheet::new("S"));
+    let wb = book.workbook_stream(rng);
+    let bytes = cfbw::write_cfb(&[(book.stream_name.clone(), wb.clone())], &cfbw::CfbOpts::default(), rng);
+    let imp: String = match guarded(|| calamine::Xls::new(std::io::Cursor::new(bytes)).map(|x| class_letters(&vx::c10_formats(&x)))) {
+        Ok(Ok(t)) => t,
+        Ok(Err(_)) => "err".into(),
+        Err(_) => "panic".into(),
+    };
+    let input = format!("xlsstream {}", hex(&wb));
+    let m = ok_or_err(&drv.ask(&input));
+    if imp != m {
+        out.fail(if imp == "panic" { "impl_vs_spec" } else { "impl_vs_model" }, "file:xls:styles-stream", &input, &imp, &m, if imp == "panic" { "no panic" } else { "" });
+    }
+    out.count(&format!("stylespart_xls_{}", if imp == "err" { "err" } else { "ok" }));
+    out.case(input, true);
 }
 
 /// A cellXfs table with more than 65 536 entries (the file format allows it; the cell's `s` is an unsigned 32-bit
@@ -1631,6 +2073,11 @@ fn main() {
          (cells pointing in range: expectation; past the table: impl vs model, plain number), hand-written `s` spellings \
          (leading zeros legal; signs, blanks, empty, non-numeric, > 64 bits: impl vs model, style 0), and formats of <= 255 \
          characters but > 255 bytes (quoted CJK / accented text) in the grammar and file streams. \
+         (7) the style-table DECODERS (Model/FormatsDecode.lean) against the reader's own table (hooks c10_formats / \
+         c03_formats): on the styles part / stream of every file case, and on unusual or malformed parts — xlsx event lists \
+         (blocks in any order, numFmt / xf outside their block, cellStyleXfs, dxfs, prefixes, missing attributes, early \
+         end), xlsb record lists (unknown records, wrong counts, short payloads, cellStyleXfs block, truncation), xls \
+         globals with hand-made FORMAT / XF records (narrow / wide, cch mismatch, short), parse_xf / parse_format on noise. \
          No expectation (impl vs model only) for: \
          ill-formed or empty custom strings; id 0 (General) is never redefined in xlsx cases (an <xf> may omit numFmtId); in xlsb a built-in date id redefined with another class (xlsb consults the \
          built-in table first).",
@@ -1893,6 +2340,41 @@ fn main() {
                             }));
                         }
                         out.case(c.wire(), !c.defs.is_empty());
+                    }
+                    out
+                })
+            })
+            .collect();
+        hs.into_iter().map(|h| h.join().unwrap()).collect()
+    });
+    merge(outs, &mut rep);
+
+    // 7. the decoders of the style tables on unusual / malformed parts
+    let parts_n = if args.n.map(|n| n > 8).unwrap_or(false) { args.n.unwrap() / 50 + 1 } else { args.count(1_500, 150_000) };
+    let forks: Vec<Rng> = (0..threads).map(|_| rng.fork()).collect();
+    let per = parts_n / threads as u64 + 1;
+    let outs: Vec<Out> = std::thread::scope(|sc| {
+        let hs: Vec<_> = forks
+            .into_iter()
+            .map(|mut rng| {
+                sc.spawn(move || {
+                    let mut drv = Driver::spawn(driver);
+                    let mut out = Out::default();
+                    for i in 0..per {
+                        match i % 3 {
+                            0 => {
+                                let evs = gen_xlsx_styles_events(&mut rng);
+                                check_xlsx_styles_part(&evs, &mut rng, &mut drv, &mut out);
+                            }
+                            1 => {
+                                let (recs, cut) = gen_xlsb_styles_records(&mut rng);
+                                check_xlsb_styles_part(&recs, cut, &mut rng, &mut drv, &mut out);
+                            }
+                            _ => check_xls_styles_stream(&mut rng, &mut drv, &mut out),
+                        }
+                        for _ in 0..4 {
+                            check_xls_style_payloads(&mut rng, &mut drv, &mut out);
+                        }
                     }
                     out
                 })
